@@ -356,3 +356,50 @@ def stdlib_family(rep, n_cases, n_ops, nproc=16):
     cov["distinct_nontrivial"] = cov.get("distinct_nontrivial", 0) + len(hashes)
     cov.setdefault("families", {})["c20-stdlib"] = tot
     return tot
+
+
+def fractional_weights_probe(rep, n):
+    """the weight limit with weights that are not whole numbers (real code only: the model's weights are integers): dyadic
+    fractions - exact in binary floating point, so that nothing here is a rounding matter - down to 1/1024, limits that are
+    met exactly, inventories that are full or have a limit of 0; `add` directly and through `Shop.buy`.  Judged with exact
+    rational arithmetic."""
+    from fractions import Fraction
+    from bardic.stdlib.economy import Wallet, Shop
+    from bardic.stdlib.inventory import Inventory
+    WEIGHTS = [Fraction(1, 2 ** k) for k in (0, 1, 2, 3, 6, 8, 9, 10)] + [Fraction(3, 2), Fraction(5, 4), Fraction(0)]
+    done = 0
+    for idx in range(n):
+        r = rng_for(rep.seed, "fractional", idx)
+        limit = r.choice([Fraction(0), Fraction(1), Fraction(3, 2), Fraction(2), Fraction(1, 4), Fraction(5)])
+        with quiet():
+            inv = Inventory(float(limit))
+            w = Wallet(1000)
+            held = Fraction(0)
+            log = []
+            for step in range(r.randint(3, 14)):
+                wt = r.choice(WEIGHTS)
+                item = {"name": f"i{step}", "weight": float(wt), "value": 1}
+                if r.random() < 0.3:
+                    shop = Shop([dict(item)])
+                    gold0 = w.gold
+                    ok = shop.buy(item["name"], w, inv)
+                    via = "Shop.buy"
+                    if not ok and w.gold != gold0:
+                        rep.violations.append({"cls": None, "family": "c20-fractional", "what": f"a refused purchase changed the gold ({gold0} -> {w.gold})", "log": log})
+                else:
+                    ok = inv.add(dict(item))
+                    via = "add"
+                log.append([via, str(wt), bool(ok)])
+                fits = held + wt <= limit
+                if ok:
+                    held += wt
+                exact = sum((Fraction(i.get("weight", 0)) for i in inv.items), Fraction(0))
+                if exact != held or exact > limit or bool(ok) != fits:
+                    rep.violations.append({"cls": None, "family": "c20-fractional",
+                                           "what": (f"limit {limit}, carried {held - (wt if ok else 0)} before: {via} of an item weighing {wt} answered {bool(ok)} "
+                                                    f"(it {'fits' if fits else 'does not fit'}); the inventory now carries {exact} of {limit}"),
+                                           "log": log})
+                    break
+        done += 1
+    rep.coverage.setdefault("families", {})["c20-fractional"] = {"cases": done}
+    rep.coverage["evaluations"] = rep.coverage.get("evaluations", 0) + done
